@@ -371,12 +371,16 @@ Inductive op :=
 | OPeek_ (t : tid) (k : nat)                 (* read it back through guard k *)
 | ORelease (t : tid) (k : nat)               (* drop guard k *)
 | OEnabled (t : tid) (dis : bool)            (* Collect::enabled for the next callsite: the filtered layer's verdict (dis = disabled) *)
-| OFEvent_ (t : tid) (k : pkind).            (* the event of the preceding OEvent_, as the filtered layer sees it *)
+| OFEvent_ (t : tid) (k : pkind)             (* the event of the preceding OEvent_, as the filtered layer sees it *)
+| OEventQ (t : tid) (q : nat).               (* an event whose EXPLICIT parent is the retained Id of span number q — possibly stale
+                                                (the span has closed, its slot may have been reused) —, as layer 1 and as the
+                                                filtered layer see it *)
 
 Definition op_tid (o : op) : tid :=
   match o with
   | ONewSpan t _ _ _ | OClone t _ _ | ODrop t _ | OEnter t _ | OExit t _ | OExitH t _ | OCurrent t _ | OEvent_ t _
-  | OSetDef t _ | OUnsetDef t | OReadTrace t _ | OHold_ t _ _ | OPoke t _ | OPeek_ t _ | ORelease t _ | OEnabled t _ | OFEvent_ t _ => t
+  | OSetDef t _ | OUnsetDef t | OReadTrace t _ | OHold_ t _ _ | OPoke t _ | OPeek_ t _ | ORelease t _ | OEnabled t _ | OFEvent_ t _
+  | OEventQ t _ => t
   end.
 
 Definition alloc_legal (sl : slot) (a : sid) : bool :=
@@ -669,6 +673,28 @@ Definition do_fevent (st : state) (t : tid) (k : pkind) : state * list obs :=
                   (match es with Some s => seq_at st i s | None => None end) sc (from_root sc)])
   end.
 
+(** Context::event_span for an explicit parent Id: `event.parent().and_then(|id| self.span(id))` — an Id that does not resolve
+    in this registry (closed span, recycled slot), or, for the filtered layer, resolves to a span its filter disabled, gives NO
+    span: the explicit parent overrides the contextual one, it is never replaced by the current span. *)
+Definition explicit_parent (st : state) (i : inst) (p : sid) : option sid :=
+  match lookup st i p with Some _ => Some p | None => None end.
+Definition explicit_parent_filtered (st : state) (i : inst) (p : sid) : option sid :=
+  if enabled_for st i p then Some p else None.
+
+Definition do_eventq (st : state) (t : tid) (q : nat) : state * list obs :=
+  match eff st t false with
+  | None => (st, [])
+  | Some i =>
+    let es := match find_seq q (st_created st) with Some (_, p) => explicit_parent st i p | None => None end in
+    let fes := match find_seq q (st_created st) with Some (_, p) => explicit_parent_filtered st i p | None => None end in
+    let sc := match es with Some s => scope st i s | None => [] end in
+    let fsc := match fes with Some s => fscope st i s | None => [] end in
+    (st, [OEvent i (match lookup_current st i t with Some c => seq_at st i c | None => None end)
+                 (match es with Some s => seq_at st i s | None => None end) sc (from_root sc) (dump st i);
+          OFEvent i (match flookup_current st i t with Some c => seq_at st i c | None => None end)
+                  (match fes with Some s => seq_at st i s | None => None end) fsc (from_root fsc)])
+  end.
+
 Definition do_enabled (st : state) (t : tid) (dis : bool) : state * list obs :=
   (set_filter (if dis then t :: filter (fun x => negb (x =? t)) (st_filtering st) else filter (fun x => negb (x =? t)) (st_filtering st))
               (st_vis st) st, []).
@@ -724,6 +750,7 @@ Definition step (st : state) (o : op) : state * list obs :=
        | ORelease t k => do_release st t k
        | OEnabled t dis => do_enabled st t dis
        | OFEvent_ t k => do_fevent st t k
+       | OEventQ t q => do_eventq st t q
        end.
 
 Fixpoint run (st : state) (h : list op) : state * list (list obs) :=
